@@ -32,10 +32,13 @@ impl EventLog {
 
     pub fn append(&self, event: &Event) -> io::Result<()> {
         let mut writer = self.writer.lock().expect("event log mutex");
-        let line = serde_json::to_string(event)
+        let mut line = serde_json::to_string(event)
             .map_err(|err| io::Error::new(io::ErrorKind::InvalidData, err))?;
+        // Hand the frame and its terminator to the writer in one piece: a frame larger than the
+        // buffer is written straight through, and a separate newline write would leave a window
+        // in which a crash strands an unterminated line that the next append gets glued onto.
+        line.push('\n');
         writer.write_all(line.as_bytes())?;
-        writer.write_all(b"\n")?;
         writer.flush()?;
         Ok(())
     }
